@@ -334,12 +334,17 @@ func TestC03Stress(t *testing.T) {
 			// others return at once (not started); none may panic or close anything twice
 			var sdwg sync.WaitGroup
 			startShut := make(chan struct{})
+			var aligned int32
 			for j := 0; j < nshut; j++ {
 				sdwg.Add(1)
 				go func() {
 					defer sdwg.Done()
 					defer guard("Shutdown")
 					<-startShut
+					// spin until all callers are running, so that the calls start together
+					atomic.AddInt32(&aligned, 1)
+					for k := 0; k < 100000 && atomic.LoadInt32(&aligned) < int32(nshut); k++ {
+					}
 					_ = s.Shutdown()
 				}()
 			}
@@ -470,4 +475,71 @@ func TestC03ServeFailure(t *testing.T) {
 			rt.Fatalf("%s (workers %d, queue %q)", msg, workers, queue)
 		}
 	})
+}
+
+// TestC03ConcurrentShutdown: nothing but Serve followed by 2-4 Shutdown calls made at the
+// same instant (spin-aligned), a few hundred times: exactly one of them shuts the service
+// down, nothing panics, the connection is closed once and Serve returns.
+func TestC03ConcurrentShutdown(t *testing.T) {
+	ev := evid.For("C03")
+	cycles := evid.Pick(400, 6000)
+	s := res.NewService("svc")
+	s.SetLogger(nil)
+	s.SetWorkerCount(2)
+	s.Handle("m", res.Call("do", func(r res.CallRequest) { r.OK(nil) }))
+	for c := 0; c < cycles; c++ {
+		conn := fakeconn.New()
+		served := make(chan struct{})
+		s.SetOnServe(func(*res.Service) { close(served) })
+		exited := make(chan error, 1)
+		go func() { exited <- s.Serve(conn) }()
+		select {
+		case <-served:
+		case <-time.After(20 * time.Second):
+			t.Fatalf("VERIF-INCONCLUSIVE: service did not start")
+		}
+		n := 2 + c%3
+		var aligned, won int32
+		var panicked atomic.Value
+		var wg sync.WaitGroup
+		for j := 0; j < n; j++ {
+			wg.Add(1)
+			go func() {
+				defer wg.Done()
+				defer func() {
+					if v := recover(); v != nil {
+						panicked.CompareAndSwap(nil, fmt.Sprint(v))
+					}
+				}()
+				atomic.AddInt32(&aligned, 1)
+				for k := 0; k < 1000000 && atomic.LoadInt32(&aligned) < int32(n); k++ {
+				}
+				if s.Shutdown() == nil {
+					atomic.AddInt32(&won, 1)
+				}
+			}()
+		}
+		wg.Wait()
+		msg := ""
+		select {
+		case <-exited:
+		case <-time.After(20 * time.Second):
+			msg = "Serve did not return after the Shutdown calls"
+		}
+		switch {
+		case msg != "":
+		case panicked.Load() != nil:
+			msg = fmt.Sprintf("a Shutdown call panicked: %v", panicked.Load())
+		case won != 1:
+			msg = fmt.Sprintf("%d of the %d simultaneous Shutdown calls reported that they shut the service down", won, n)
+		case conn.Closed != 1:
+			msg = fmt.Sprintf("the connection was closed %d times", conn.Closed)
+		}
+		if msg != "" {
+			evid.Violation(t, "C03", "concurrent-shutdown", fmt.Sprintf("cycle %d, %d simultaneous Shutdown calls: %s", c, n, msg), map[string]int{"cycle": c, "calls": n})
+			return
+		}
+	}
+	ev.Case(true, evid.Hash("concurrent-shutdown", cycles), "concurrent-shutdown")
+	ev.Add("concurrent-shutdown-cycles", int64(cycles))
 }
